@@ -7,7 +7,8 @@ EXPLANATION = ("Static MIR rules on crate mla-bindings-c: (R20.1) in every exter
                "Box::from_raw is followed on all normal exits by Box::leak/into_raw of that box unless the caller's handle was nulled before (release "
                "functions); (R20.3) MLAStatus::Success is not reachable from the Err outcome of any fallible library call, results are not dropped; "
                "(R20.4) the callback adapters return Ok only on callback status 0, with the count the callback reported; (R20.5) extraction registers "
-               "only writers initialised by the file callback under its status-0 edge and goes through linear_extract. Byte equality with the Rust "
+               "only writers initialised by the file callback under its status-0 edge and goes through linear_extract; (R20.6) no BufWriter / LineWriter stands in front of a "
+               "caller callback unless every path to Success passes its flush (whose result R20.3 examines). Byte equality with the Rust "
                "interface and misbehaving callbacks are not decided.")
 TRUSTED = ['rustc MIR', 'Box::from_raw / Box::leak ownership semantics']
 ASSUMPTIONS = ['callbacks respect their contract (count <= offered length)', 'non-null handles were produced by this interface']
